@@ -33,7 +33,7 @@ def build(ctx):
 
 
 MT_MODEL_VOS = ["Base/Conv.vo", "DD/Table.vo", "DD/Sem.vo", "DD/Build.vo", "DD/Apply.vo", "Num/I64.vo", "Num/F64.vo",
-                "DD/ApplyMtbdd.vo"]
+                "DD/ApplyMtbdd.vo", "DD/MtG.vo", "DD/MtF64.vo"]
 
 
 def build_mt(ctx):
